@@ -20,7 +20,16 @@ from . import shapes_common as sc
 from .shapes_common import Fr
 
 PID = "C04"
-PROOF_FILES = ["theories/Props/C04.v", "theories/Proofs/AabbProofs.v", "theories/Proofs/AabbProofsB.v", "theories/Spec/Shapes.v", "theories/Base/RVec2.v"]
+PROOF_FILES = ["theories/Props/C04.v", "theories/Proofs/AabbProofs.v", "theories/Proofs/AabbProofsB.v", "theories/Spec/Shapes.v",
+               "theories/Base/RVec2.v", "theories/Checker/ShapesCert.v"]
+TRACE_SCOPE = {
+    "containment.py": ["axis_aligned_bounding_box", "sphere_aabb", "box_aabb", "cylinder_aabb", "capsule_aabb",
+                       "ellipsoid_aabb", "disk_aabb", "cone_aabb", "ellipse_aabb"],
+    "colliders.py": [f"{c}.aabb" for c in ("ConvexHullVertices", "Box", "MeshGraph", "Sphere", "Capsule", "Ellipsoid",
+                                            "Cylinder", "Disk", "Ellipse", "Cone", "Margin")],
+    "hydroelastic_contact/_rigid_body.py": ["RigidBody.aabb", "RigidBody.aabbs", "RigidBody.aabb_tree", "RigidBody.express_in"],
+    "hydroelastic_contact/_mesh_processing.py": ["tetrahedral_mesh_aabbs"],
+}
 KNOWN_FILE = cm.VERIF / "known_findings_C04.json"
 
 
@@ -48,6 +57,13 @@ def gen_rigid_body(rng, stream):
         sh.update(R=sc.gen_rotation(rng, stream), t=[0.0, 0.0, 0.0])
     else:
         sh.update(R=sc.gen_rotation(rng, stream), t=sc.gen_translation(rng, stream))
+    if rng.random() < 0.6:
+        # second observation after express_in(new frame): identity (then the stored vertices ARE world
+        # coordinates and the box is judged by the oracle), or another general pose
+        if rng.random() < 0.5:
+            sh["express_in"] = dict(R=ident, t=[0.0, 0.0, 0.0])
+        else:
+            sh["express_in"] = dict(R=sc.gen_rotation(rng, stream), t=sc.gen_translation(rng, stream))
     sz = lambda: sc.gen_size(rng, stream, 0.05, 20.0)  # noqa: E731
     if maker == "box":
         sh["size"] = [sz(), sz(), sz()]
@@ -64,12 +80,12 @@ def gen_cases(rng, tier):
     per = 14 if tier == "quick" else 120
     cases = []
     for kind in sc.KINDS:
-        for stream in ("random", "lattice"):
-            for _ in range(per):
+        for stream, share in (("random", 1.0), ("lattice", 0.6), ("exact", 0.4)):
+            for _ in range(int(per * share)):
                 sh = sc.gen_shape(rng, kind, stream)
                 margin = None
                 if rng.random() < 0.25:
-                    margin = rng.choice(sc.LATTICE) if stream == "lattice" else 10 ** rng.uniform(-2, 1)
+                    margin = rng.choice(sc.LATTICE) if stream in ("lattice", "exact") else 10 ** rng.uniform(-2, 1)
                 cases.append(dict(shape=sh, margin=margin))
     # poses orthonormal only up to 1 ulp (entries 1.0000000000000002): the radicand 1 - a*a hazard
     for kind in ("cylinder", "cone", "disk", "capsule", "ellipsoid", "box", "ellipse"):
@@ -165,6 +181,51 @@ def known_id(case, site):
     return None
 
 
+# ---------------------------------------------------------------- Coq-proven certificates
+def cert_job(case, r):
+    """(labels, (definitions, expression : list bool)): aabb_cert of Checker/ShapesCert.v for the collider's
+    box (with its margin) and for the free function's box"""
+    from .. import narrow
+    sh = case["shape"]
+    if sh["kind"] == "rigid_body" or "aabb" not in r:
+        return [], None
+    if sh["kind"] in ("hull", "mesh") and len(sh["vs"]) > 40:
+        return [], None
+    labels, items, defs = [], [], []
+    m = case["margin"]
+    for name, box, mm, var in (("aabb", r["aabb"], m, "shS"), ("free", r.get("free"), None, "shB")):
+        if box is None or not (sc.finite(box[0]) and sc.finite(box[1])):
+            continue
+        if name == "free" and m is None:
+            continue                       # identical to aabb() (compared bitwise in the correspondence)
+        spec = sc.to_spec(sh, mm)
+        tau = narrow._q(Fr(1e-9) * Fr(sc.shape_L(sh, mm or 0.0)))
+        ws = []
+        for k in range(3):
+            for sg in (-1.0, 1.0):
+                e = [0.0, 0.0, 0.0]
+                e[k] = sg
+                ws.append(narrow.wit_expr(spec, narrow.support_point(spec, e)))
+        defs.append((var, narrow.sh_expr(spec)))
+        labels.append(name)
+        items.append(f"aabb_cert {var} ({', '.join(ws)}) {narrow.vq(box[0])} {narrow.vq(box[1])} {tau}")
+    if not labels:
+        return [], None
+    return labels, (defs, f"[{'; '.join(items)}]")
+
+
+def line_coverage(hits, scope):
+    from ..impl import shapes_trace as st
+    import os
+    base = cm.REPO / "distance3d"
+    by_path = {}
+    for f, v in hits.items():
+        for rel in scope:
+            if rel.split("/")[-1] == f:
+                by_path[os.path.realpath(str(base / rel))] = sorted(v)
+    return st.summarize(by_path, {str(base / f): names for f, names in scope.items()})
+
+
 # ---------------------------------------------------------------- model side
 def coq_case_expr(case, r):
     sh = case["shape"]
@@ -203,7 +264,7 @@ def compare_case(case, r, m):
 
 
 # ---------------------------------------------------------------- running
-def run_impl_cases(cases, tag):
+def run_impl_cases(cases, tag, hits=None):
     nw = min(cm.NCPU, max(1, len(cases) // 25))
     chunks = [cases[i::nw] for i in range(nw)]
     res = cm.run_impl_parallel(PID, "c04", [dict(cases=c) for c in chunks], timeout=900, tag=tag)
@@ -211,6 +272,9 @@ def run_impl_cases(cases, tag):
     for w, (rr, ch) in enumerate(zip(res, chunks)):
         idxs = list(range(w, len(cases), nw))
         if rr["status"] == "ok":
+            if hits is not None:
+                for f, lines in (rr["result"].get("line_hits") or {}).items():
+                    hits.setdefault(f, set()).update(lines)
             for i, x in zip(idxs, rr["result"]["results"]):
                 out[i] = x
         else:
@@ -230,11 +294,14 @@ def run(tier, seed, replay=None):
                      "optional exact 45-degree factor, sizes and offsets from {1/4,1/2,1,2,4}] / 'composed' poses orthonormal "
                      "only up to 1 ulp; 25% wrapped in Margin) -> collider.aabb() and the containment free function; plus "
                      "RigidBody.make_{box,cube,sphere,ellipsoid} at identity / translated / rotated / general poses -> "
-                     "RigidBody.aabb(); the two documented witnesses are always included. distinct_nontrivial counts distinct "
+                     "RigidBody.aabb(), for 60% observed a second time after express_in(identity or another pose) [cache "
+                     "invalidation]; streams also include 'exact' (axis permutations only); the two documented witnesses are always included. distinct_nontrivial counts distinct "
                      "case hashes whose box was judged (finite answer) and has non-zero extent on every axis or belongs to a flat shape")
     R.assumptions += [
         "theorems are about the Gallina model Model/Aabb.v instantiated at exact real arithmetic; the tie to /repo is the correspondence check run here (binary64 instance of the same model vs implementation, six bounds at 1e-9*L)",
-        "the property oracle of this check is an independent exact Python oracle (fractions.Fraction, integer-square-root bounds at 2^-160), NOT a Coq-extracted checker: exact support values along +-e_k of c + M.K under the exact float pose; polytopes and rigid bodies: exact extrema over the vertices (rigid bodies: vertices_ mapped by body2origin_)",
+        "per-input verdict: the gate is an independent exact Python oracle (fractions.Fraction, integer-square-root bounds at 2^-160): exact support values along +-e_k of c + M.K under the exact float pose; polytopes and rigid bodies: exact extrema over the vertices (rigid bodies: vertices_ mapped by body2origin_); every collider box is ALSO submitted to the Coq-proven checker aabb_cert (Checker/ShapesCert.v: enclosure on six sides by proven upper bounds of the support value, tightness by six untrusted witness points) evaluated by vm_compute; coverage.certificates counts the verdicts that are thereby consequences of aabb_cert_sound (a rejected certificate with an accepting oracle is counted as inconclusive, never as a failure; rigid bodies and hulls of more than 40 vertices are not submitted)",
+        "certificates speak about the shape expression of harness/narrow.py (axis vectors = binary64 products size*column, disk frame completed in floating point): a perturbation of the set below 1e-15*L",
+        "coverage.impl_line_coverage: source lines of /repo's containment.py, the aabb() methods of colliders.py and RigidBody.aabb()/aabbs/aabb_tree/express_in executed by this run's inputs (sys.settrace in the workers)",
         "RigidBody.aabb() is modelled as the merge of the per-tetrahedron boxes; that the tree's root box equals this merge is the C05 theorem, and is re-checked here only through the correspondence",
         "IEEE rounding is not modelled by the theorems; its effect is only measured here against 1e-9*L",
         "harness/compat.py import shim; numpy/numba/CPython/BLAS",
@@ -251,12 +318,27 @@ def run(tier, seed, replay=None):
                 cases.append(json.loads(f.read_text())["case"])
         cases += gen_cases(R.rng, tier)
 
-    results = run_impl_cases(cases, "impl")
+    hits = {}
+    results = run_impl_cases(cases, "impl", hits)
+    # a rigid body observed again after express_in(new frame) is a second case: same tetrahedra, the new
+    # stored vertices and the new body2origin_
+    n_hist = 0
+    for c, r in list(zip(cases, results)):
+        if c["shape"]["kind"] == "rigid_body" and isinstance(r.get("after"), dict):
+            a = r["after"]
+            T = a["body2origin"]
+            sh2 = dict(c["shape"], R=[row[:3] for row in T[:3]], t=[row[3] for row in T[:3]], derived="after_express_in")
+            sh2.pop("express_in", None)
+            cases.append(dict(shape=sh2, margin=None))
+            results.append(dict(aabb=a["aabb"], vertices=a["vertices"], tetrahedra=r["tetrahedra"]))
+            n_hist += 1
+    R.cov["rigid_body_histories"] = n_hist
     bad = []
     known_counts = {}
     unbuilt = 0
     n_eval = 0
-    for c, r in zip(cases, results):
+    fails_by_case = {}
+    for ci, (c, r) in enumerate(zip(cases, results)):
         if "build_exc" in r:
             if c["shape"]["kind"] == "rigid_body":
                 bad.append((c, [("RigidBody.aabb", f"raised {r['build_exc']}: {r.get('build_msg', '')}")]))
@@ -265,6 +347,7 @@ def run(tier, seed, replay=None):
             continue
         n_eval += 2 if "free" in r else 1
         fs = judge_case(c, r)
+        fails_by_case[ci] = fs
         unknown = []
         for site, f in fs:
             kid = known_id(c, site)
@@ -281,6 +364,47 @@ def run(tier, seed, replay=None):
     R.cov["cases"] = len(cases)
     R.cov["cases_not_constructible"] = unbuilt
     R.cov["known_finding_failures"] = known_counts
+
+    # Coq-proven certificates on the implementation's boxes
+    jobs = []
+    for ci, (c, r) in enumerate(zip(cases, results)):
+        if "build_exc" in r or "exc" in r:
+            continue
+        try:
+            labels, e = cert_job(c, r)
+            if labels:
+                jobs.append((ci, labels, e))
+        except Exception as e:  # witness construction is untrusted and may fail
+            R.notes.append(dict(certificate_construction_failed=f"{type(e).__name__}: {str(e)[:200]}", case_hash=cm.canon_hash(c)))
+    cert = dict(submitted=sum(len(l) for _, l, _ in jobs), accepted=0, rejected_but_oracle_accepts=0,
+                rejected_and_oracle_rejects=0)
+    try:
+        outs = sc.coq_eval_blocks(PID, sc.CERT_HEADER, [e for _, _, e in jobs], tag="cert",
+                                  per_file=max(2, len(jobs) // (cm.NCPU * 3) + 1), timeout=1500)
+        rej = {}
+        for (ci, labels, _), o in zip(jobs, outs):
+            verdicts = [x.strip() == "true" for x in o.strip().strip("[]").split(";")]
+            if len(verdicts) != len(labels):
+                raise RuntimeError(f"unexpected checker output {o[:200]}")
+            for ok in verdicts:
+                if ok:
+                    cert["accepted"] += 1
+                elif fails_by_case.get(ci):
+                    cert["rejected_and_oracle_rejects"] += 1
+                else:
+                    cert["rejected_but_oracle_accepts"] += 1
+                    k = cases[ci]["shape"]["kind"]
+                    rej[k] = rej.get(k, 0) + 1
+        if rej:
+            cert["inconclusive_by_kind"] = rej
+    except RuntimeError as e:
+        R.notes.append(dict(certificate_evaluation_failed=str(e)[:500]))
+    cert["theorem"] = "Checker/ShapesCert.v aabb_cert_sound"
+    R.cov["certificates"] = cert
+    cov = line_coverage(hits, TRACE_SCOPE)
+    R.cov["impl_line_coverage"] = dict(
+        executable=sum(v["executable"] for v in cov.values()), hit=sum(v["hit"] for v in cov.values()),
+        functions=len(cov), missed={k: v["missed"] for k, v in cov.items() if v["missed"]})
 
     exprs, idx = [], []
     for i, (c, r) in enumerate(zip(cases, results)):
